@@ -26,6 +26,7 @@ REPO = pathlib.Path(os.environ.get('VERIF_REPO', '/repo'))
 if str(REPO) not in sys.path:
     sys.path.insert(0, str(REPO))
 os.environ.setdefault('HOMONIM_VERIF', '1')
+os.environ.setdefault('TQDM_DISABLE', '1')
 
 ALLOWED_AXIOMS = {'propext', 'Classical.choice', 'Quot.sound'}
 FORBIDDEN = re.compile(
